@@ -48,7 +48,87 @@ func (c *Ctx) credsOfFacts(fs []Fact) []Cred {
 	for _, f := range fs {
 		out = append(out, c.credOf(f.Cond, f.Pol, 0)...)
 	}
+	if len(out) == 0 {
+		out = c.credsOfRows(fs)
+	}
 	return out
+}
+
+// credsOfRows: a phase helper that hands back `(done bool, err error)` leaves,
+// once inlined, a join block with one phi per result; the caller goes on under
+// `!done && err == nil`. Neither test proves anything alone (some failing
+// return also says done == false, another says err == nil), together they
+// select the rows — the ways of arriving at the join — that can produce both
+// values. If every such row is itself reached only past a credential check,
+// the check is proven where the caller goes on.
+func (c *Ctx) credsOfRows(fs []Fact) []Cred {
+	type test struct {
+		phi    *ssa.Phi
+		isBool bool
+		pol    bool // bool: value tested for; error: true = tested nil
+	}
+	byBlock := map[*ssa.BasicBlock][]test{}
+	for _, f := range fs {
+		rel := Normalize(f.Cond, f.Pol)
+		if rel.Op == token.ILLEGAL {
+			if phi, ok := rel.B.(*ssa.Phi); ok {
+				byBlock[phi.Block()] = append(byBlock[phi.Block()], test{phi, true, rel.Pol})
+			}
+			continue
+		}
+		if (rel.Op == token.EQL || rel.Op == token.NEQ) && IsNilConst(rel.Y) && IsErrorType(rel.X.Type()) {
+			if phi, ok := rel.X.(*ssa.Phi); ok {
+				byBlock[phi.Block()] = append(byBlock[phi.Block()], test{phi, false, rel.Op == token.EQL})
+			}
+		}
+	}
+	for J, tests := range byBlock {
+		if len(tests) < 2 || len(J.Preds) < 2 {
+			continue
+		}
+		var all []Cred
+		proven, rows := true, 0
+		for i, pred := range J.Preds {
+			consistent := true
+			for _, t := range tests {
+				if i >= len(t.phi.Edges) {
+					consistent = false
+					break
+				}
+				e := t.phi.Edges[i]
+				if t.isBool {
+					if b, isC := ConstBool(e); isC && b != t.pol {
+						consistent = false
+					}
+					continue
+				}
+				isNil := IsNilConst(e)
+				if t.pol && !isNil {
+					// tested nil: an operand known non-nil on this edge cannot be it
+					if HasFact(FactsAtEdge(pred, J), func(f Fact) bool { return f.SaysNotNil(e) }) || HasFact(FactsAt(pred), func(f Fact) bool { return f.SaysNotNil(e) }) {
+						consistent = false
+					}
+				}
+				if !t.pol && isNil {
+					consistent = false
+				}
+			}
+			if !consistent {
+				continue
+			}
+			rows++
+			cs := c.credsAtEdge(pred, J)
+			if len(cs) == 0 {
+				proven = false
+				break
+			}
+			all = append(all, cs...)
+		}
+		if proven && rows > 0 {
+			return all
+		}
+	}
+	return nil
 }
 
 // CredsAt returns the credentials proven whenever control is at instruction
